@@ -66,6 +66,18 @@ REG = {
             "reachable generator must differ between two worker seeds, no state may occur in both workers, equal seeds reproduce; a "
             "second facet runs real 2-worker DataLoaders and compares per-generator digests taken inside the workers",
             "DESIGN.md §3 C09", TRUST + "; deepcopy models fork/pickle (validated by the real-worker facet)"),
+    "C10": ("exploration", "Hypothesis-generated id-encoded batches; decode-and-verify oracle (partner and weight decoded from the mixed output, never replaying the collator's rng)",
+            "all apply x lambda x shuffle modes, mixup/cutmix/both, binary and one-hot labels, every mode order with optional extra "
+            "items, MAEFinetuneMixCollator; for each row the reported ctx weight must explain the label AND the image (mixup "
+            "combination or one pasted box whose complement fraction is the weight) with one common partner, which must be the "
+            "roll/flip partner or - for random - part of a bijection; rows sum to one, other items and ctx entries untouched",
+            "DESIGN.md §3 C10", TRUST + "; tolerances stated in the evidence assumptions"),
+    "C11": ("exploration", "Hypothesis-generated id-encoded datasets; decode-and-verify oracle + metamorphic relation between request forms",
+            "sample-level mix over datasets with equal or differing sample shapes (own pad/cut reference), all request forms; result "
+            "must be the untouched sample with a one-hot label or a convex combination with one partner whose label is mixed with "
+            "the same weight; seeded wrappers must give identical x / class for every request form; p=1 must mix (bounded "
+            "statistical oracle, false-alarm < 1e-30); sample-level cutmix must be refused",
+            "DESIGN.md §3 C11", TRUST),
     "C14": ("exploration", "Hypothesis-generated image sizes/parameters: decode-and-verify on recorded context, coordinate-encoded image/mask pairs, inverse round-trips",
             "10 facets: random / two-random / random-resized / simple-random crop (tensor + PIL; output size, recorded box inside the "
             "padded input, torchvision functional re-application reproduces the output, recorded overlap), random erasing (one "
